@@ -775,6 +775,122 @@ def reuse_case(perm):
     return {"vio": vio, "n": len(perm)}
 
 
+# ------------------------------------------------------------------------------------------------
+# (7) module-level constructor functions are pure: the value returned for given arguments does not depend on what the
+#     caller did (in place) with arrays returned by earlier calls, and the arguments are not modified
+
+def pure_function_table():
+    from oqupy import operators as O
+    a2 = M.generic_herm(2, 3, 0.7)
+    b2 = M.generic_herm(2, 5, 0.4) + 0.3j * M.SX
+    tab = {}
+    for nm in ("id", "x", "y", "z", "+", "-"):
+        tab[f"operators.sigma({nm!r})"] = (lambda nm=nm: O.sigma(nm), ())
+    for nm in ("up", "down", "z+", "z-", "x+", "x-", "y+", "y-", "mixed"):
+        tab[f"operators.spin_dm({nm!r})"] = (lambda nm=nm: O.spin_dm(nm), ())
+    for n in (2, 3):
+        tab[f"operators.identity({n})"] = (lambda n=n: O.identity(n), ())
+        tab[f"operators.create({n})"] = (lambda n=n: O.create(n), ())
+        tab[f"operators.destroy({n})"] = (lambda n=n: O.destroy(n), ())
+    for fn in ("commutator", "acommutator", "left_super", "right_super"):
+        tab[f"operators.{fn}(A)"] = (lambda a, fn=fn: getattr(O, fn)(a), (a2,))
+    for fn in ("left_right_super", "cross_commutator", "cross_acommutator", "cross_left_right_super"):
+        if fn == "cross_left_right_super":
+            tab[f"operators.{fn}(A,B,A,B)"] = (lambda a, b, fn=fn: getattr(O, fn)(a, b, b, a), (a2, b2))
+        else:
+            tab[f"operators.{fn}(A,B)"] = (lambda a, b, fn=fn: getattr(O, fn)(a, b), (a2, b2))
+    return tab
+
+
+def pure_function_case(name):
+    f, args = pure_function_table()[name]
+    vio = []
+    try:
+        mine = [np.array(a, copy=True) for a in args]
+        first = f(*mine)
+        pristine = np.array(first, copy=True)
+        if any(not np.array_equal(m, a) for m, a in zip(mine, args)):
+            vio.append((f"pure|{name.split('(')[0]}|argument-modified", name))
+        for k in range(2):
+            got = f(*[np.array(a, copy=True) for a in args])
+            if got.shape != pristine.shape or not np.array_equal(got, pristine):
+                vio.append((f"pure|{name.split('(')[0]}|value-depends-on-what-the-caller-did-with-an-earlier-result",
+                            f"{name}: call {k + 2} differs from call 1 after the caller overwrote the earlier result in place"))
+                break
+            if got.flags.writeable:
+                got *= 0.0
+                got += 3.0 - 2.0j
+            if isinstance(first, np.ndarray) and first.flags.writeable:
+                first[...] = 5.0
+    except Exception as ex:  # noqa
+        vio.append((f"pure|{name.split('(')[0]}|exception:{type(ex).__name__}", f"{name}: {ex}"[:150]))
+    return {"vio": vio, "n": 3}
+
+
+# ------------------------------------------------------------------------------------------------
+# (8) a SystemChain that gains terms between computations: every run must use the terms the chain has NOW
+
+CHAIN_OPS = ["R", "Hs", "Hn", "Ds", "Dn"]
+
+
+def _chain_apply(chain, op, count):
+    f = 1.0 + 0.3 * count          # a repeated operation adds a different amount
+    if op == "Hs":
+        chain.add_site_hamiltonian(site=0, hamiltonian=0.6 * f * M.SX)
+    elif op == "Hn":
+        chain.add_nn_hamiltonian(site=0, hamiltonian_l=0.5 * f * M.SZ, hamiltonian_r=M.SX)
+    elif op == "Ds":
+        chain.add_site_dissipation(site=1, lindblad_operator=M.SM, gamma=0.4 * f)
+    elif op == "Dn":
+        chain.add_nn_dissipation(site=0, lindblad_operator_l=M.SM, lindblad_operator_r=M.SZ, gamma=0.3 * f)
+
+
+def _chain_run(chain):
+    t = oq.PtTebd(oq.AugmentedMPS([M.RHO_GEN2, M.RHO_PLUS]), chain, [None, None],
+                  oq.PtTebdParameters(dt=DT, order=2, epsrel=1e-10), dynamics_sites=[0, 1])
+    r = t.compute(2, progress_type="silent")
+    return np.concatenate([np.array(r["dynamics"][0].states).ravel(), np.array(r["dynamics"][1].states).ravel()])
+
+
+def chain_history_case(hist):
+    def base():
+        c = oq.SystemChain(hilbert_space_dimensions=[2, 2])
+        c.add_site_hamiltonian(site=1, hamiltonian=0.3 * M.SZ)
+        return c
+    chain = base()
+    applied = []
+    vio = []
+    for i, op in enumerate(hist):
+        try:
+            if op != "R":
+                _chain_apply(chain, op, applied.count(op))
+                applied.append(op)
+                continue
+            got = _chain_run(chain)
+            fresh = base()
+            seen = []
+            for a in applied:
+                _chain_apply(fresh, a, seen.count(a))
+                seen.append(a)
+            exp = _chain_run(fresh)
+        except Exception as ex:  # noqa
+            vio.append((f"chain|{op}|exception:{type(ex).__name__}", f"history {hist} op {i}: {ex}"[:160]))
+            break
+        if got.shape != exp.shape or np.abs(got - exp).max() > 1e-8:
+            nruns = sum(1 for o in hist[:i] if o == "R")
+            vio.append((f"chain|run-{'after-earlier-runs-and-added-terms' if nruns else 'first'}|differs-from-a-fresh-chain",
+                        f"history {hist}: run at op {i} differs from a freshly built chain with the same terms by "
+                        f"{np.abs(got - exp).max() if got.shape == exp.shape else 'shape'}"))
+            break
+    return {"vio": vio, "n": len(hist)}
+
+
+def chain_histories(tier):
+    depth = 4 if tier == "quick" else 5
+    return [h for L in range(2, depth + 1) for h in itertools.product(CHAIN_OPS, repeat=L)
+            if h[-1] == "R" and h.count("R") >= 2 and any(o != "R" for o in h)]
+
+
 RESOLUTION_COMPS = ["tempo-dt1", "tempo-dt2", "free-dt1", "free-dt2", "td-dt2", "mf-dt2", "mf-dt1"]
 
 
@@ -897,6 +1013,18 @@ def run(tier, seed):
         trans += r["n"]
         for cls, what in r["vio"]:
             rep.add(Violation(cls, what, {"part": "reuse", "perm": list(p)}))
+    pnames = list(pure_function_table())
+    pres_ = pmap(pure_function_case, pnames, seed=seed)
+    for nm, r in zip(pnames, pres_):
+        nl += r["n"]
+        for cls, what in r["vio"]:
+            rep.add(Violation(cls, what, {"part": "pure", "name": nm}))
+    chs = chain_histories(tier)
+    cres_ = pmap(chain_history_case, chs, seed=seed)
+    for h, r in zip(chs, cres_):
+        nl += r["n"]
+        for cls, what in r["vio"]:
+            rep.add(Violation(cls, what, {"part": "chain", "hist": list(h)}))
     rperms = list(itertools.permutations(RESOLUTION_COMPS, 3 if tier == "quick" else 4))
     qres = pmap(resolution_case, rperms, seed=seed)
     for p_, r in zip(rperms, qres):
@@ -908,7 +1036,7 @@ def run(tier, seed):
         "transitions": trans + nl,
         "traces_validated_against_impl": len(jobs) + nl + len(perms),
         "histories": len(jobs), "history_depth": depth, "layout_runs": nl, "apis_with_array_arguments": len(names),
-        "reuse_orders": len(perms), "bath_dynamics_query_histories": len(bh), "resolution_orders": len(rperms),
+        "reuse_orders": len(perms), "bath_dynamics_query_histories": len(bh), "resolution_orders": len(rperms), "pure_functions": len(pnames), "chain_histories": len(chs),
         "exhaustive": tier == "thorough",
         "rule": "state = (current public parameter values of objects A and B, selected object, parameters the latest bath was "
                 "built with); every history over {E,B,R,T,S1,S2,X} up to the depth that ends in an observation is executed on real "
@@ -940,6 +1068,12 @@ def replay(rp):
     if rp["part"] == "ptupdate":
         a = rp["args"]
         r = pt_update_case((a[0], a[1], tuple(a[2])))
+        return {"obs": r["vio"], "violation": r["vio"][0][0] if r["vio"] else None}
+    if rp["part"] == "chain":
+        r = chain_history_case(tuple(rp["hist"]))
+        return {"obs": r["vio"], "violation": r["vio"][0][0] if r["vio"] else None}
+    if rp["part"] == "pure":
+        r = pure_function_case(rp["name"])
         return {"obs": r["vio"], "violation": r["vio"][0][0] if r["vio"] else None}
     if rp["part"] == "resolution":
         r = resolution_case(tuple(rp["perm"]))
